@@ -390,7 +390,9 @@ class C07(SimSpec):
         probe = scenarios(modes=('tiering',), min_obs=2, **kw)
         rej2 = with_rejection(crowd(kw))        # the over-rate observation starts while / right after another one ingests
         return mix((4, main), (2, crowd(kw, delays=True)), (2, swarm(kw, delays=True, units=True)),
-                   (1, scenarios(modes=('bandov',), **kw)), (1, rej), (1, rej2), (1, probe))
+                   (1, scenarios(modes=('bandov',), **kw)), (1, rej), (1, rej2), (1, probe),
+                   # hot / cold capacities that are not whole numbers (x.25, x.5, x.75: exact in binary)
+                   (1, scenarios(frac_cap=True, modes=('roomy',), units=True, delays=True, min_obs=2, **kw)))
 
     def violations(self, tr):
         out = O.C07(tr)
